@@ -16,8 +16,8 @@ HERE = os.path.dirname(os.path.dirname(os.path.abspath(__file__)))
 MUTANTS = {
     "C08": [
         ("loop-min", "src/pdsh/dsh.c", "            if (t[i].rc > rc)\n", "            if (t[i].rc < rc)\n"),
-        ("loop-skips-first", "src/pdsh/dsh.c", "        for (i = 0; t[i].host != NULL; i++) {\n            if (t[i].state == DSH_FAILED",
-         "        for (i = 1; t[i].host != NULL; i++) {\n            if (t[i].state == DSH_FAILED"),
+        ("loop-skips-first", "src/pdsh/dsh.c", "        for (i = 0; t[i].host != NULL; i++) {\n            if ((t[i].state == DSH_FAILED",
+         "        for (i = 1; t[i].host != NULL; i++) {\n            if ((t[i].state == DSH_FAILED"),
         ("rc-failed-253", "src/pdsh/opt.h", "#define RC_FAILED\t254", "#define RC_FAILED\t253"),
         ("destroy-overrides-marker", "src/pdsh/dsh.c", "    rv = rcmd_destroy (a->rcmd);\n    if ((a->rc == 0) && (rv > 0))",
          "    rv = rcmd_destroy (a->rcmd);\n    if (rv > 0)"),
@@ -34,8 +34,22 @@ MUTANTS = {
          "    { int i_, r_ = 0; for (i_ = 0; i_ < 50 && (r_ = waitpid (p->pid, &status, WNOHANG)) == 0; i_++) usleep (10000);\n"
          "      if (r_ == 0) status = 0; }\n    if (0)\n"),
         ("marker-skips-digit", "src/pdsh/dsh.c", "        ret = atoi(p + strlen(RC_MAGIC));", "        ret = atoi(p + strlen(RC_MAGIC) + 1);"),
-        ("failed-overwrites-again", "src/pdsh/dsh.c", "            if (t[i].state == DSH_FAILED && rc < RC_FAILED)", "            if (t[i].state == DSH_FAILED)"),
+        ("failed-overwrites-again", "src/pdsh/dsh.c", "                && rc < RC_FAILED)\n                rc = RC_FAILED;", "                )\n                rc = RC_FAILED;"),
         ("late-line-resets-again", "src/pdsh/dsh.c", "            if (read_rc && strstr (buf, RC_MAGIC))", "            if (read_rc)"),
+        # round 2: position / flag / boundary classes
+        ("loop-skips-last", "src/pdsh/dsh.c", "        for (i = 0; t[i].host != NULL; i++) {\n            if ((t[i].state == DSH_FAILED",
+         "        for (i = 0; t[i].host != NULL && t[i + 1].host != NULL; i++) {\n            if ((t[i].state == DSH_FAILED"),
+        ("k-ignores-failed-state", "src/pdsh/dsh.c", "    if (a->kill_on_fail && ((a->state == DSH_FAILED) || (a->rc > 0))) {",
+         "    if (a->kill_on_fail && (a->rc > 0)) {"),
+        ("exit-7bit", "src/pdsh/main.c", "    return retval;\n}", "    return retval & 0x7f;\n}"),
+        ("destroy-255-dropped", "src/pdsh/dsh.c", "    rv = rcmd_destroy (a->rcmd);\n    if ((a->rc == 0) && (rv > 0))",
+         "    rv = rcmd_destroy (a->rcmd);\n    if ((a->rc == 0) && (rv > 0) && (rv < 255))"),
+        ("canceled-not-failed-again", "src/pdsh/dsh.c", "            if ((t[i].state == DSH_FAILED || t[i].state == DSH_CANCELED)",
+         "            if ((t[i].state == DSH_FAILED)"),
+        ("failed-only-if-rc0", "src/pdsh/dsh.c", "                && rc < RC_FAILED)\n                rc = RC_FAILED;",
+         "                && rc < RC_FAILED && t[i].rc == 0)\n                rc = RC_FAILED;"),
+        ("marker-only-with-S", "src/pdsh/dsh.c", "    if (opt->kill_on_fail || opt->ret_remote_rc)\n        opt->getstat", "    if (opt->ret_remote_rc)\n        opt->getstat"),
+        ("S-with-k-returns-0", "src/pdsh/dsh.c", "    if (opt->ret_remote_rc) {\n        for (i = 0; t[i].host", "    if (opt->ret_remote_rc && !opt->kill_on_fail) {\n        for (i = 0; t[i].host"),
     ],
     "C18": [
         ("env-after-args", "src/pdsh/main.c", "    opt_env(&opt);\n", "",
@@ -63,6 +77,17 @@ MUTANTS = {
         ("misc-env-ignored", "src/pdsh/opt.c", 'getenv("PDSH_MISC_MODULES")', 'getenv("PDSH_MISC_MODULEZ")'),
         ("M-appends", "src/pdsh/opt.c", "                if (opt->misc_modules)\n                    Free ((void **) &opt->misc_modules);\n                opt->misc_modules = Strdup (optarg);",
          "                if (!opt->misc_modules)\n                opt->misc_modules = Strdup (optarg);"),
+        # round 2: personalities, main as a whole, per-source classes
+        ("pdcp-ignores-fanout-env", "src/pdsh/opt.c", '    if ((rhs = getenv("FANOUT")) != NULL)\n', '    if (personality == DSH && (rhs = getenv("FANOUT")) != NULL)\n'),
+        ("fanout-check-skipped-with-S", "src/pdsh/opt.c", "        if (opt->fanout < 1) {", "        if (opt->fanout < 1 && !opt->ret_remote_rc) {"),
+        ("username-check-dsh-only", "src/pdsh/opt.c", "    if (strlen (src) > maxlen)", "    if (personality == DSH && strlen (src) > maxlen)"),
+        ("cmd-double-blank", "src/pdsh/opt.c", '                xstrcat(&opt->cmd, " ");', '                xstrcat(&opt->cmd, "  ");'),
+        ("cmd-drops-empty-word", "src/pdsh/opt.c", "            xstrcat(&opt->cmd, argv[optind]);", "            if (argv[optind][0]) xstrcat(&opt->cmd, argv[optind]);"),
+        ("no-command-runs-dsh", "src/pdsh/main.c", "        else if (pdsh_personality() == PCP || opt.cmd != NULL)", "        else if (1)"),
+        ("env-timeout-unchecked", "src/pdsh/opt.c", "        if (opt->command_timeout < 0) {", "        if (opt->command_timeout < 0 && !getenv (\"PDSH_COMMAND_TIMEOUT\")) {"),
+        ("second-R-ignored", "src/pdsh/opt.c", "        case 'R':\n            opt->rcmd_name = Strdup(optarg);",
+         "        case 'R':\n            { static int seen_; if (seen_++) break; }\n            opt->rcmd_name = Strdup(optarg);"),
+        ("octal-accepted", "src/pdsh/opt.c", "    n = strtol (val, &p, 10);", "    n = strtol (val, &p, 0);"),
     ],
 }
 
@@ -73,7 +98,7 @@ def apply(copy, edits):
         p = os.path.join(copy, path)
         s = open(p).read()
         if s.count(old) != 1:
-            raise SystemExit("mutant does not apply uniquely: %s %r (%d)" % (path, old[:40], s.count(old)))
+            raise ValueError("mutant does not apply uniquely: %s %r (%d)" % (path, old[:40], s.count(old)))
         open(p, "w").write(s.replace(old, new))
 
 
@@ -88,7 +113,12 @@ def main():
         copy = "/var/tmp/optexit-mutant-%s-%s" % (prop, name)
         shutil.rmtree(copy, ignore_errors=True)
         subprocess.run(["cp", "-a", os.environ.get("MUTANT_BASE", "/repo"), copy], check=True)
-        apply(copy, edits)
+        try:
+            apply(copy, edits)
+        except ValueError as e:
+            print("%-28s SKIPPED (%s)" % (name, e), flush=True)
+            shutil.rmtree(copy, ignore_errors=True)
+            continue
         p = subprocess.run([os.path.join(HERE, "check.py"), prop, "--tier", "quick"], cwd=HERE,
                            env=dict(os.environ, VERIF_REPO=copy), stdout=subprocess.PIPE, stderr=subprocess.STDOUT)
         out = p.stdout.decode("utf-8", "replace")
